@@ -8,19 +8,19 @@ VERIF = os.path.dirname(os.path.dirname(os.path.abspath(__file__)))
 sys.path.insert(0, VERIF)
 
 LEVEL_TEXT = {
-    "C01": ("exploration", "§4 C01", "Seeded faulted worlds (bound-heavy statements, scale on/off, NaN regions, SOC/geometry steps reached) run against the real minimize; every point crossing the solver->user seam and the pre-projection trial point (probe) is checked. Sampling, not proof."),
-    "C02": ("exploration", "§4 C02", "Result compared with the recorded reply history and an independent user-space violation model over the cross product of statement forms and forced endings."),
-    "C03": ("exploration", "§4 C03", "Filter state machine driven with seeded reply histories (ties, NaN, inf, tolerance edge) against a plain-list reference model after every operation, plus the end-to-end world clause."),
-    "C05": ("fault_enumeration", "§4 C05", "Budget exhaustion (maxfev=k, maxiter=k) injected at every evaluation index of each sampled run; counters compared with the simulator's ground-truth history."),
-    "C06": ("exploration", "§4 C06", "Exactly-once / never-behind-the-scenes grammar over the recorded call history of every peer, in faulted worlds with 1-3 nonlinear constraint objects."),
-    "C07": ("exploration", "§4 C07", "Every ending is made to happen by the simulator (stop@k, target, budgets, all-fixed, inconsistent bounds, linalg faults) and the reported status is checked against that ground truth ('only when' clauses) and against the documentation table parsed at run time."),
-    "C08": ("exploration", "§4 C08", "Widest fault mix (NaN/inf/huge replies one-shot, sticky and regional; eigh failures; hostile callbacks; degenerate bounds): minimize must return a well-formed result, never raise, never label NaN successful; probe checks values entering the models."),
-    "C09": ("fault_enumeration", "§4 C09", "A stop request (callback StopIteration, target, feasibility) is injected at every evaluation index of each sampled run, labelled by step kind; forward, converse and result clauses over the history."),
-    "C10": ("exploration", "§4 C10", "Differential simulation: paired worlds under one fault plan keyed by point and evaluation index; bitwise trace equality for syntactic restatements, faithfulness + no-leak for fixed variables and scaling."),
-    "C11": ("exploration", "§4 C11", "Threaded worlds under a seeded baton-passing scheduler (line-level pre-emption inside cobyqa, write-set guided), nested and repeated calls, argument snapshots; every client must equal its sequential baseline bit for bit."),
-    "C12": ("exploration", "§4 C12", "Models state machine (replace / shift / reset with near-duplicate, collinear, far points, barrier replies, eigh faults) with interpolation, twin-consistency and recorded-value oracles after every op, plus the same clauses probed inside real runs."),
-    "C18": ("exploration", "§4 C18", "Per-iteration invariants probed in faulted worlds over 30 decades of radii and randomised constants, plus a radius state machine driving the real update rules."),
-    "C20": ("fault_enumeration", "§4 C20", "Counterfactual branching: for every callback call k of a sampled run the same world is re-run with StopIteration at k; the returned point must be bit-equal to what call k received."),
+    "C01": ("exploration", "§4 C01, §11.4", "Seeded faulted worlds (bound-heavy statements, scale on/off, fixed and near-fixed variables, NaN regions, SOC-biased statements, re-entrant variants) run against the real minimize; every point crossing the solver->user seam is checked exactly and the pre-projection trial point (probe) up to rounding at the scale the coordinate has had. Sampling, not proof."),
+    "C02": ("exploration", "§4 C02, §11.4", "Result compared with the recorded reply history and an independent user-space violation model over the cross product of statement forms and forced endings; user functions must receive the extra arguments the user stated; re-entrant variants."),
+    "C03": ("exploration", "§4 C03, §11.4", "Filter state machine driven with seeded reply histories (ties, NaN, inf, tolerance edge) against a plain-list reference model after every operation, plus end-to-end world clauses (feasible first, not dominated, merit with the final penalty, finite filter_size retention model, returned x produced the returned values, exact decisions at feasibility_tol = 0)."),
+    "C05": ("fault_enumeration", "§4 C05, §11.4", "Budget exhaustion (maxfev=k, maxiter=k) injected at every evaluation index of each sampled run (up to the tier cap, always around nb_points); counters and histories compared with the simulator's ground-truth history, also for re-entrant calls and for objectives that reuse their output buffer."),
+    "C06": ("exploration", "§4 C06, §11.4", "Exactly-once / never-behind-the-scenes grammar over the recorded call history of every peer, in faulted worlds with 1-3 nonlinear constraint objects, including functions that overwrite their input, stated extra arguments, verbose mode and re-entrant variants."),
+    "C07": ("exploration", "§4 C07, §11.4", "Every ending is made to happen by the simulator (stop@k, target - also first met at infeasible points -, budgets, all-fixed, inconsistent bounds, eigh faults) and the reported status is checked against that ground truth (only-when clauses, true violation of the returned point) and against the documentation table parsed at run time."),
+    "C08": ("exploration", "§4 C08, §11.4", "Widest fault mix (NaN/inf/huge replies one-shot, sticky and regional; every kind at every evaluation index for one statement in 16; eigh failures; hostile callbacks; integer / boolean replies; functions that raise when handed internal variables; degenerate bounds): minimize must return a well-formed result, never raise, never label an undefined result successful; bounded progress by a line-counting tracer on a sample and on watchdog hits."),
+    "C09": ("fault_enumeration", "§4 C09, §11.4", "A stop request (callback StopIteration, target, feasibility, target+tolerance pair at every SOC evaluation) is injected at every evaluation index of each sampled run up to the tier cap, labelled by step kind; forward, converse and result clauses over the history, the returned point judged by its true violation."),
+    "C10": ("exploration", "§4 C10, §11.3", "Differential simulation: paired worlds under one point-keyed fault plan with memory layout normalised; bitwise trace equality for syntactic restatements, faithfulness of the internal linear data + no-leak (explicit restatement built from the solver's own arrays) for fixed variables and scaling."),
+    "C11": ("exploration", "§3.4, §4 C11, §11.4", "Threaded worlds under a seeded baton-passing scheduler (line-level pre-emption inside cobyqa, write-set discovery, exact guided schedules), nested and repeated calls with user objects dropped in between, argument snapshots, dirty-allocator seam; every client must equal its sequential baseline bit for bit. Cases run in freshly forked children."),
+    "C12": ("exploration", "§4 C12, §11.3", "Models state machine (replace / shift / reset with near-duplicate, collinear, far points, barrier replies, eigh faults) with interpolation, twin-consistency, structural and recorded-value oracles after every op, plus the same clauses (and recorded constraint values, bitwise) probed inside real runs."),
+    "C18": ("exploration", "§4 C18, §11.4", "Invariants probed at every iteration and every main-loop evaluation of faulted worlds over 30 decades of radii and randomised constants (order relation, monotone resolution, penalty, centre = least merit, ties to the smaller violation, protected centre, bounded number of reductions), plus a radius state machine driving the real update rules."),
+    "C20": ("fault_enumeration", "§4 C20, §11.4", "Counterfactual branching: for every callback call k of a sampled run the same world is re-run with StopIteration at k and, for every second k, with maxfev=k; the returned point must be bit-equal to what call k received; all callback styles incl. partials and falsy callables, optional prelude call with the other convention, forked cases."),
 }
 TECH = "deterministic simulation with fault injection (seeded worlds, scripted peers, replayable fault plans)"
 NA = {
